@@ -1,6 +1,7 @@
 package props
 
 import (
+	"bytes"
 	"context"
 	stdjson "encoding/json"
 	"fmt"
@@ -581,6 +582,33 @@ func c19Queries(c *work.Ctx) {
 			c.Outcome(kind)
 			if kind != "" {
 				c.Violation(fmt.Sprintf("projection : %s", kind), id, fmt.Sprintf("MarshalContext gives %s err=%v; Marshal restricted to the query gives %s", clip([]byte(got)), gerr, clip([]byte(want))))
+			}
+			// the other entry points that take a context project the same document: Encoder.EncodeContext, plain
+			// and indenting (the indenting interpreters have their own marshaler call)
+			if kind == "" && !p && gerr == nil {
+				for _, indent := range []bool{false, true} {
+					var w bytes.Buffer
+					var eerr error
+					pe, _ := util.Safe(func() {
+						en := json.NewEncoder(&w)
+						if indent {
+							en.SetIndent("", " ")
+						}
+						eerr = en.EncodeContext(json.SetFieldQueryToContext(context.Background(), cloneQuery(q)), v)
+					})
+					wantE := got + "\n"
+					if indent {
+						var ib bytes.Buffer
+						if stdjson.Indent(&ib, []byte(got), "", " ") != nil {
+							continue
+						}
+						wantE = ib.String() + "\n"
+					}
+					if pe || eerr != nil || w.String() != wantE {
+						c.Violation(fmt.Sprintf("projection : Encoder.EncodeContext (indent %v) differs from MarshalContext with the same query : %s", indent, queryShape(q, root)), id,
+							fmt.Sprintf("EncodeContext gives %q err=%v panic=%v ; MarshalContext (re-indented) gives %q", clip(w.Bytes()), eerr, pe, clip([]byte(wantE))))
+					}
+				}
 			}
 			// the query rebuilt from its own QueryString is equivalent
 			if qs, err := cloneQuery(q).QueryString(); err == nil && len(q.Fields) > 0 {
